@@ -121,3 +121,206 @@ def check(ctx, prog, scope, floor=1):
                 why = "%d lines, reviewed %d: %s" % (len(got), len(want), (got[len(want):] or want[len(got):])[:2])
         ctx.ob(R, "%s is branch-free and has its reviewed value" % f.short, ok, why, f.loc())
     ctx.floor(R, n, floor, "branch-free bodies in scope")
+
+
+# ---- path summaries: loop-free, store-free bodies with a few result sites ------------------------------------------------------------
+
+def loop_free(f):
+    try:
+        order = f.rpo()
+        pos = {b: k for k, b in enumerate(order)}
+        for b in order:
+            for s in f.lsuccs(b):
+                if pos.get(s, 1 << 30) <= pos[b]:
+                    return False
+    except Exception:
+        return False
+    return True
+
+
+def _variants(prog, ty):
+    """number of variants of the enum a discriminant is read from (None when unknown)"""
+    ty = ty.lstrip("&").strip()
+    base = ty.split("<")[0]
+    a = prog.adts.get(base)
+    if a is None:
+        cands = [v for k, v in prog.adts.items() if k.endswith("::" + base.split("::")[-1])]
+        a = cands[0] if len(cands) == 1 else None
+    if a is None:
+        if base.startswith("core::option::Option"):
+            return 2
+        if base.startswith("core::result::Result"):
+            return 2
+        return None
+    return len(a.get("variants", [])) or None
+
+
+def _subst_local(e, l, val):
+    if not isinstance(e, tuple) or not e or not isinstance(e[0], str):
+        return e
+    if e[0] == "local" and e[1] == l:
+        return val
+    return tuple(_subst_local(y, l, val) if isinstance(y, tuple) and y and isinstance(y[0], str) else
+                 (tuple(_subst_local(z, l, val) if isinstance(z, tuple) else z for z in y) if isinstance(y, tuple) else y) for y in e)
+
+
+def _belief_edge(f, sb):
+    """the branch in block sb is a debug_assert!/invariant! test (its other arm panics under one of those macros)"""
+    from ..mir import is_panic_call
+    for b in f.lsuccs(sb):
+        t = f.blocks[b]["term"]
+        if is_panic_call(t) and any(m in ("debug_assert", "invariant", "debug_assert_eq", "debug_assert_ne") for m in t["sp"].get("macros", [])):
+            return True
+    return False
+
+
+def path_summary(prog, f):
+    """sorted list of (conditions, result) for every site that assigns the return place; None when the body stores to memory, hands
+    out `&mut`, or has too many sites"""
+    from ..sym import Sym, strip, canon, path_conds, bool_atom, walk
+    from ..mir import callee_of, is_panic_call
+    from .features import debug_regions
+    sy = Sym(f)
+    region = debug_regions(f)
+    for i, j, s in f.stmts():
+        if s["s"] == "assign" and s["lhs"]["p"] and i not in region:
+            return None
+    for i, t in f.calls():
+        if i in region or is_panic_call(t):
+            continue
+        if any(a["k"] in ("copy", "move") and a["pl"]["ty"].startswith(("&mut", "*mut")) for a in t["args"]):
+            return None
+    names = {}
+
+    def ren(txt):
+        def L(m):
+            k = m.group(0)
+            if k not in names:
+                names[k] = "local:v%d" % len(names)
+            return names[k]
+        return re.sub(r"local:\w+", L, txt)
+    sites = []
+    res = []
+    for i, j, s in f.stmts():
+        if s["s"] == "assign" and s["lhs"]["l"] == 0 and not s["lhs"]["p"] and i not in region:
+            res.append((i, strip(sy.rvalue(s["rv"]))))
+    for i, t in f.calls():
+        if t["dest"]["l"] == 0 and not t["dest"]["p"] and i not in region:
+            res.append((i, strip(sy.call(t, i))))
+    if not res or len(res) > 8:
+        return None
+    # a result read from a local assigned on several arms (`let r = match ..`, `matches!`) is split per assignment
+    res2 = []
+    for blk, v in res:
+        phis = sorted({x[1] for x in walk(v) if x[0] == "local" and len(f.defs.get(x[1], [])) > 1})
+        if len(phis) == 1 and len(f.defs[phis[0]]) <= 6:
+            l = phis[0]
+            alts = []
+            for d in f.defs[l]:
+                bi = d[0]
+                if bi in region or bi not in f.live:
+                    continue
+                val = None
+                if d[1] == "term":
+                    t = f.blocks[bi]["term"]
+                    if t.get("t") == "call" and t["dest"]["l"] == l and not t["dest"]["p"]:
+                        val = strip(sy.call(t, bi))
+                else:
+                    s = f.blocks[bi]["stmts"][d[1]]
+                    if s["s"] == "assign" and s["lhs"]["l"] == l and not s["lhs"]["p"]:
+                        val = strip(sy.rvalue(s["rv"]))
+                if val is None:
+                    alts = None
+                    break
+                alts.append((bi, val))
+            if alts:
+                for bi, val in alts:
+                    res2.append(((blk, bi), _subst_local(v, l, val)))
+                continue
+        res2.append(((blk,), v))
+    for blks, v in sorted(res2, key=lambda z: z[0]):
+        conds = []
+        pcs = []
+        for b in blks:
+            pcs += path_conds(f, sy, b)
+        for c in pcs:
+            if len(c) > 3 and _belief_edge(f, c[3][0]):
+                continue
+            e = strip(c[0])
+            if e[0] == "discr":
+                # as the set of admitted variants, so that `matches!`, `if let` and an exhaustive `match` read alike
+                ty = None
+                inner = strip(e[1])
+                vals = sorted(c[2])
+                n = None
+                if inner[0] in ("param", "local"):
+                    n = _variants(prog, f.locals[inner[1]]["ty"])
+                elif inner[0] == "deref" and strip(inner[1])[0] in ("param", "local"):
+                    n = _variants(prog, f.locals[strip(inner[1])[1]]["ty"])
+                if c[1] == "notin" and n is not None:
+                    vals = [k for k in range(n) if k not in vals]
+                    op = "in"
+                else:
+                    op = c[1]
+                conds.append("discr(%s) %s %s" % (canon(inner), op, vals))
+                continue
+            a = bool_atom(c)
+            if a is None:
+                conds.append("%s %s %s" % (canon(e), c[1], sorted(c[2])))
+            elif a[0] == "truth":
+                conds.append("%s is %s" % (canon(strip(a[1])), a[2]))
+            else:
+                x, y = canon(strip(a[1])), canon(strip(a[2]))
+                op = a[0]
+                if op in ("Gt", "Ge"):
+                    op, x, y = {"Gt": "Lt", "Ge": "Le"}[op], y, x
+                elif op in ("Eq", "Ne") and y < x:
+                    x, y = y, x
+                conds.append("%s(%s,%s)" % (op, x, y))
+        sites.append((sorted(set(conds)), canon(v)))
+    # merge sites with equal results whose condition sets differ in one discriminant only is left to the comparison (sets of pairs)
+    out = sorted({"%s <= %s" % (ren(r), ren(" & ".join(cs))) for cs, r in sites})
+    return out
+
+
+_REF_PATHS = None
+R2 = "SA-PATHSUM"
+
+
+def check_paths(ctx, prog, scope, floor=1):
+    """loop-free, effect-free bodies with branches: the set of (conditions -> result) pairs is the reviewed one"""
+    global _REF_PATHS
+    if _REF_PATHS is None:
+        try:
+            with open(os.path.join(os.path.dirname(os.path.dirname(os.path.abspath(__file__))), "ref_paths.json")) as fh:
+                _REF_PATHS = json.load(fh)
+        except OSError:
+            _REF_PATHS = {}
+    ctx.rule(R2, "loop-free, effect-free bodies with branches (predicates, classifiers, small selectors): the set of (conditions -> result) pairs - conditions as normalised comparison atoms and admitted enum variants - is the one recorded for the reviewed tree")
+    rx = re.compile(scope)
+    n = 0
+    for path, fs in sorted(prog.by_path.items()):
+        if not rx.search(path) or len(fs) != 1 or EXCLUDE.search(path):
+            continue
+        ent = _REF_PATHS.get(path, {})
+        want = ent.get(prog.cfg)
+        if want is None and "*" in ent and prog.cfg in ent.get("in", []):
+            want = ent["*"]
+        if want is None:
+            continue
+        f = fs[0]
+        n += 1
+        if (prog.cfg, f.path) in ctx.analysed["functions"]:
+            continue
+        ctx.visit(f)
+        got = path_summary(prog, f) if loop_free(f) else None
+        if got is None:
+            ctx.ob(R2, "%s keeps its reviewed (conditions -> result) table" % f.short, False, "no longer a loop-free, effect-free body", f.loc())
+            continue
+        ok = got == want
+        why = "%d result site(s)" % len(got)
+        if not ok:
+            d = [g for g in got if g not in want][:2] or [w for w in want if w not in got][:2]
+            why = "differs: %s" % [x[:160] for x in d]
+        ctx.ob(R2, "%s keeps its reviewed (conditions -> result) table" % f.short, ok, why, f.loc())
+    ctx.floor(R2, n, floor, "branching effect-free bodies in scope")
